@@ -24,6 +24,7 @@ from .qactivation import quantize_activation
 from .qbytes import QBytesTensor
 from .qtensor import QTensor, qfallback
 from .qtype import qint8
+from .quantizers import SymmetricQuantizer
 
 
 __all__ = ["get_qbytestensor_op_dispatch", "register_qbytestensor_op"]
@@ -124,6 +125,12 @@ def clone(op, t, memory_format=torch.preserve_format):
 
 @register_qbytestensor_op([torch.ops.aten.copy_])
 def copy_(op, dest, src):
+    if not isinstance(dest, QBytesTensor):
+        # Copying into a standard Tensor: use the dequantized values
+        return op(dest, src.dequantize())
+    if not isinstance(src, QBytesTensor):
+        # Copying from a standard Tensor: quantize it with the destination qtype and scale
+        src = SymmetricQuantizer.apply(src, dest.qtype, dest.axis, dest._scale)
     assert dest.qtype == src.qtype
     dest._data = op(dest._data, src._data)
     dest._scale = op(dest._scale, src._scale)
